@@ -1,6 +1,7 @@
 """C10 - reduced labelling: every object and property labels exactly its own concept."""
 
 import pickle
+import random
 
 from .. import attach, gen, core
 from ..attach import Monitor
@@ -48,6 +49,8 @@ def judge_labels(lat, cap, origin):
         COL.count('unfaithful_lattice_skipped')          # C03/C06's business
         return
     members = view.members
+    if origin != 'quiescent':
+        common.previsit(members, sh, ('atoms', 'objects', 'properties'))
     want_obj = [[] for _ in members]
     want_prop = [[] for _ in members]
     for i in range(sh.n):
